@@ -59,7 +59,7 @@ def run_bounded(prop, contracts, repo, tier, seed, only=None, replay=None):
     req = {"repo": repo, "tier": tier, "seed": seed, "contracts": contracts, "replay": replay}
     env = dict(os.environ)
     env["PYTHONPATH"] = repo + os.pathsep + HERE
-    env.setdefault("DATAITER_USE_NUMBA", "false") if prop not in ("C08",) else None
+    env["DATAITER_USE_NUMBA"] = "false"     # the driver process itself; Numba workers are separate processes
     env["PYTHONDONTWRITEBYTECODE"] = "1"
     p = subprocess.run([VENV_PY, "-m", "bounded.driver"], input=json.dumps(req), capture_output=True,
                        text=True, cwd=HERE, env=env, timeout=3600)
@@ -168,6 +168,23 @@ def main(argv=None):
     os.makedirs(os.path.join(HERE, "replays", prop), exist_ok=True)
     violations = []
     known_hits = []
+    # failures of bounded run-time contracts that are listed findings (identified by contract + clause pattern)
+    import re
+    for name, b in bounded.items():
+        if name.startswith("__"):
+            continue
+        rest = []
+        for fl in b.get("failures", []):
+            hit = None
+            for k in known:
+                if k.get("contract") == name and k.get("clause_regex") and re.search(k["clause_regex"], fl.get("clause", "")):
+                    hit = k
+                    break
+            if hit is not None:
+                known_hits.append((hit, None, {"name": "bounded-run-time-contract", "case": fl.get("clause", "")}))
+            else:
+                rest.append(fl)
+        b["failures"] = rest
     undecided_names = []
     reported = set()
 
@@ -261,7 +278,8 @@ def main(argv=None):
     ev = {
         "property_id": prop, "tier": tier, "seed": seed, "level": "proof",
         "coverage": {
-            "obligations": obligations - len(known_hits), "discharged": discharged,
+            "obligations": obligations - sum(1 for k_, r_, o_ in known_hits if r_ is not None), "discharged": discharged,
+            "known_finding_bounded_failures": sum(1 for k_, r_, o_ in known_hits if r_ is None),
             "obligations_including_known_findings": obligations,
             "explanation": "obligations = proof obligations generated from /repo's current source that are expected to hold; "
                            "obligations failing for a defect listed in KNOWN_FINDINGS.jsonl are counted separately under "
@@ -273,7 +291,7 @@ def main(argv=None):
                                           "discharged": sum(1 for o in r.obligations if o["status"] == "unsat"),
                                           "status": r.status, "reason": r.reason[:300], "solver_s": round(r.solver_time, 2)}
                                          for r in results],
-            "known_finding_obligations": len(known_hits),
+            "known_finding_obligations": sum(1 for k_, r_, o_ in known_hits if r_ is not None),
             "undecided": undecided_names,
             "bounded_stand_ins": bounded_summary,
             "samples": samples,
@@ -295,7 +313,7 @@ def main(argv=None):
                 if o["status"] != "unsat" or args.v:
                     print(f"#    {o['status']:7s} {o['name']} [{o['case']}] path={o['path']} {o['time']}s {o['detail'][:160]}")
     print(f"{prop}: {discharged}/{obligations} obligations discharged over {len(results)} contracts; "
-          f"{len(known_hits)} known-finding obligations; {len(undecided_names)} undecided; "
+          f"{len(known_hits)} known-finding obligations/failures; {len(undecided_names)} undecided; "
           f"{len(vio_lines)} violations; {wall:.1f}s")
     if errors:
         for r in errors:
